@@ -479,8 +479,9 @@ class _Tr:
                 if m:
                     return self.bind(m, s.value, None, tail, env, ind)
                 f = s.value.func
-                if isinstance(f, ast.Attribute) and isinstance(f.value, ast.Name) and f.value.id == 'self' and f.attr in sp.effect_methods:
-                    fld, lit = sp.effect_methods[f.attr]
+                fd = _dotted(f) or ''
+                if fd.startswith('self.') and fd[5:] in sp.effect_methods:
+                    fld, lit = sp.effect_methods[fd[5:]]
                     if fld not in sp.fields:
                         raise Unsupported(f'effect {ast.unparse(s)[:60]}: {fld} is not a declared field')
                     return pad + f'let s_{fld} : {LEAN_T[sp.fields[fld]]} := {lit}\n' + self.block(tail, [], env, ind)
